@@ -268,10 +268,18 @@ def check_positions(case, ctx):
     return check_boxcar(case, ctx)
 
 
+def enum_long(tier):
+    ns = [100_003, 1_048_577] if tier == "quick" else [100_003, 1_048_577, 3_000_000, 4_194_304]
+    for i, n in enumerate(ns):
+        yield {"n": n, "kind": ["boxcar", "gaussian", "lorentzian"][i % 3], "nbins_max": 64, "spacing": 1.5, "pulse": "random", "pos": (n // 3) * 2 + i,
+               "w": 9, "amp": 8.0, "seed": 300 + i, "a": 3.0, "b_sig": 10.0, "loc": ["median", "mean"][i % 2], "scale": ["iqr", "mad", "std"][i % 3]}
+
+
 def subchecks(tier):
     return [
         SubCheck("responses", check_responses, strategy=lambda t: strat_case(t),
                  examples={"quick": 500, "thorough": 30000}, shards={"quick": 6, "thorough": 16}),
+        SubCheck("long", check_responses, enumerate=enum_long, shards={"quick": 2, "thorough": 4}, budget_s={"quick": 250, "thorough": 1500}),
         SubCheck("affine", check_affine, strategy=lambda t: strat_case(t),
                  examples={"quick": 300, "thorough": 15000}, shards={"quick": 3, "thorough": 8}),
         SubCheck("boxcar", check_boxcar, strategy=lambda t: strat_boxcar(),
